@@ -33,6 +33,9 @@ CONSTANTS ChunkBytes, CMax,
                      \* "mem_gt" (memory limit test >), "bool_any" (any non-zero byte is true)
 
 Dummy == [k |-> "unit", sz |-> 0]
+\* the code's saturating arithmetic on usize, scaled to TLC's integers (Huge stands for "beyond any limit in use")
+SatMul(a, b) == IF a = 0 \/ b = 0 THEN 0 ELSE IF a >= Huge \/ b >= Huge \/ a > Huge \div b THEN Huge ELSE a * b
+SatAdd(a, b) == IF a >= Huge - b THEN Huge ELSE a + b
 Fr(op, t, n, x) == [op |-> op, t |-> t, n |-> n, x |-> x]
 
 \* ---- machine state is one record m; cfg is fixed per behaviour
@@ -61,18 +64,18 @@ Desc(cfg, m) ==
   THEN FailM(m1, "depth") ELSE m1
 Asc(m) == [m EXCEPT !.depth = @ - 1]
 Alloc(cfg, m, n) ==
-  LET m1 == [m EXCEPT !.used = @ + n, !.nal = @ + 1] IN
+  LET m1 == [m EXCEPT !.used = SatAdd(@, n), !.nal = @ + 1] IN
   IF cfg.mlim # -1 /\ (IF Variant = "mem_gt" THEN m1.used > cfg.mlim ELSE m1.used >= cfg.mlim)
   THEN FailM(m1, "mem") ELSE m1
-Hold(m, n) == [m EXCEPT !.heap = @ + n, !.hmax = MaxOf(@, m.heap + n)]
+Hold(m, n) == [m EXCEPT !.heap = SatAdd(@, n), !.hmax = MaxOf(@, SatAdd(m.heap, n))]
 
 Bytes(cfg, a, n) == SubSeq(cfg.inp, a + 1, a + n)
 ChunkLen(sz) == IF sz = 0 THEN Huge ELSE MaxOf(1, ChunkBytes \div sz)
 \* node estimate the code announces for a tree of n entries of size esz (btree_utils.rs)
 TreeEst(n, esz) == IF n = 0 THEN 0
-                   ELSE LET leaf == 16 + 11 * esz
+                   ELSE LET leaf == ((12 + 11 * esz + 7) \div 8) * 8      \* size_of::<(usize, u16, u16, [T; 11])>() for align <= 8
                             nodes == n \div 10
-                        IN IF nodes = 0 THEN leaf ELSE nodes * (leaf + 96)
+                        IN IF nodes = 0 THEN leaf ELSE SatMul(nodes, leaf + 96)
 
 \* ---- one step per frame kind -------------------------------------------------------------
 
@@ -148,16 +151,17 @@ StepLen(cfg, m0, t) ==
       n == ToNat(dig)
       m == DropV(m0, 1)
   IN
-  CASE t.k \in {"seq", "str"} /\ (t.k = "str" \/ BulkElems(cfg.E, t)) ->
+  CASE t.k \in {"seq", "str"} /\ (t.k = "str" \/ (BulkElems(cfg.E, t) /\ t.c # "list")) ->
          \* read_vec_from_u8s: guard only when the input knows its length
          LET w == IF t.k = "str" THEN 1 ELSE Resolve(cfg.E, t.t).w IN
-         IF cfg.known /\ (n = Huge \/ Len(cfg.inp) - m.pos < n * w) THEN FailM(m, "data")
+         IF cfg.known /\ (n = Huge \/ n > (Len(cfg.inp) - m.pos) \div w) THEN FailM(m, "data")
          ELSE Cont(PushV(m, <<>>), <<Fr("bulk", t, n, w), Fr("seqfin", t, 0, 0)>>)
-    [] t.k = "seq" /\ ~BulkElems(cfg.E, t) ->
+    [] t.k = "seq" /\ (~BulkElems(cfg.E, t) \/ t.c = "list") ->
          IF t.c = "list"
          THEN LET m1 == Desc(cfg, m) IN
               IF m1.status # "run" THEN m1
-              ELSE LET m2 == Alloc(cfg, m1, IF n = Huge THEN Huge ELSE n * (16 + ElemSize(cfg.E, t.t))) IN
+              ELSE LET node == ((16 + ElemSize(cfg.E, t.t) + 7) \div 8) * 8 IN       \* size_of::<(usize, usize, T)>()
+                   LET m2 == Alloc(cfg, m1, SatMul(n, node)) IN
                    IF m2.status # "run" THEN m2
                    ELSE Cont(PushV(m2, <<>>), <<Fr("nodes", t.t, n, 16 + ElemSize(cfg.E, t.t)), Fr("ascend", Dummy, 0, 0), Fr("seqfin", t, 0, 0)>>)
          ELSE IF ZeroElems(cfg.E, t) /\ ZDepth(cfg.E, Resolve(cfg.E, t.t)) = 0
@@ -182,7 +186,7 @@ StepLen(cfg, m0, t) ==
     [] t.k = "bits" ->
          IF n > MaxBits THEN FailM(m, "data")
          ELSE LET words == BitWords(n, t.w) IN
-              IF cfg.known /\ Len(cfg.inp) - m.pos < words * t.w THEN FailM(m, "data")
+              IF cfg.known /\ words > (Len(cfg.inp) - m.pos) \div t.w THEN FailM(m, "data")
               ELSE Cont(PushV(PushV(m, dig), <<>>), <<Fr("bulk", t, words, t.w), Fr("bitsfin", t, m.pos, 0)>>)
 
 \* bulk chunks of fixed-width items: announce, reserve, read
